@@ -10,6 +10,7 @@ Reads
   * for each of the fourteen classes, where `self.eval_args(context)` / `self.args[i].eval(context)` stand relative to the early
     `return` / `raise` statements (and what is written to the object before an argument is evaluated): ARG_SHAPES, the order
     C16/ArgModel.v (ostep: SAMPLE evaluates nothing while holding, FREEZE nothing while its timer runs, ...) was written against;
+  * the bodies of BasePort.push_eval / has_pending_eval / _eval_loop (ports.py: one queued evaluation per push, FIFO);
   * the bodies of Expression.pause_asap_eval / is_asap_eval_paused / eval (base.py) and the skip rule of
     main.handle_value_changes, which must have exactly the text the model (C16/Model.v: deadline, is_paused, loop_pauses)
     was written against.
@@ -102,6 +103,21 @@ BASE_BODIES = {
              'except EvalSkipped:\n    raise\n'
              'except ValueUnavailable:\n    raise\n'
              'except ExpressionEvalError:\n    self.pause_asap_eval(context.now_ms + 1000)\n    raise'),
+}
+
+# the hub's scheduling of evaluations (core/ports.py BasePort): every push queues an evaluation with the snapshot and the time
+# of the push (no coalescing), evaluated in FIFO order; C16's loop model (one evaluation per non-skipped tick, on that tick's
+# values) and the real-port stream of harness/props/c16_worker.py rely on it
+PORT_BODIES = {
+    'push_eval': ("port_values = {p.get_id(): p.get_last_read_value() for p in get_all() if p.is_enabled()}\n"
+                  "now_ms = int(time.time() * 1000)\n"
+                  "try:\n    self._eval_queue.put_nowait(self._make_eval_context(port_values, now_ms))\n"
+                  "except asyncio.QueueFull:\n    self.warning('eval queue full')"),
+    'has_pending_eval': 'return self._eval_queue.qsize() > 0 or self._evaling',
+    '_eval_loop': ("while True:\n    try:\n        context = await self._eval_queue.get()\n"
+                   "        await self._eval_and_write(context)\n"
+                   "    except Exception:\n        self.error('eval failed', exc_info=True)\n"
+                   "    except asyncio.CancelledError:\n        self.debug('eval task cancelled')\n        break"),
 }
 
 SKIP_RULE = ("if 'asap' in deps and len(changed_deps) == 1:\n"
@@ -274,6 +290,20 @@ def read():
         got = '\n'.join(ast.unparse(s) for s in body)
         if got != want:
             raise Untranslatable('Expression.%s has an unknown body: %r' % (name, got))
+
+    with open(repo.path('qtoggleserver/core/ports.py')) as f:
+        tree = ast.parse(f.read())
+    bp = [n for n in tree.body if isinstance(n, ast.ClassDef) and n.name == 'BasePort']
+    if len(bp) != 1:
+        raise Untranslatable('ports.BasePort not found')
+    for name, want in PORT_BODIES.items():
+        fns = [n for n in bp[0].body if isinstance(n, (ast.FunctionDef, ast.AsyncFunctionDef)) and n.name == name]
+        if len(fns) != 1:
+            raise Untranslatable('BasePort.%s not found' % name)
+        body = [st for st in fns[0].body if not (isinstance(st, ast.Expr) and isinstance(st.value, ast.Constant))]
+        got = '\n'.join(ast.unparse(st) for st in body)
+        if got != want:
+            raise Untranslatable('BasePort.%s has an unknown body: %r' % (name, got))
 
     with open(repo.path('qtoggleserver/core/main.py')) as f:
         tree = ast.parse(f.read())
